@@ -70,6 +70,7 @@ pub mod stubs;
 pub mod common;
 pub mod c06;
 pub mod c06t;
+pub mod c08;
 pub mod c12;
 pub mod c13;
 pub mod c19;
@@ -78,6 +79,7 @@ pub fn registry() -> Vec<(&'static str, &'static str, fn())> {
     let mut v = Vec::new();
     c06::register(&mut v);
     c06t::register(&mut v);
+    c08::register(&mut v);
     c12::register(&mut v);
     c13::register(&mut v);
     c19::register(&mut v);
